@@ -256,6 +256,14 @@ def r3_selection(repo: Repo, rep, rule_id="R-C12-3"):
                 c = _points_call(p.ret)
                 good = c is not None and dump(c.args[1]) == f"{ck}[1]" and f"self._t[{ck}[0]]" in dump(c.args[0])
                 rep.check(R, good, fi.site(p.ret_node), fi.fq, "Points(self._t[index], space) with both parts of that evaluation", dump(p.ret)[:140], dump(p.ret)[:140])
+                if good:
+                    # the selected tensor is handed on as it is; only a rank-1 result (a single row) is given its batch axis back - batch axes are never merged
+                    sel = f"self._t[{ck}[0]]"
+                    t = c.args[0]
+                    plain = dump(t) == sel
+                    one_row = isinstance(t, ast.Call) and isinstance(t.func, ast.Attribute) and t.func.attr == "unsqueeze" and dump(t.func.value) == sel \
+                        and [dump(a) for a in t.args] == ["0"] and any(pol and dump(g).replace(" ", "") in (f"len({sel}.shape)==1", f"{sel}.dim()==1", f"{sel}.ndim==1") for g, pol, k in p.guards)
+                    rep.check(R, plain or one_row, fi.site(p.ret_node), fi.fq, "the selection keeps its batch axes (only a single selected row gets unsqueeze(0))", dump(t)[:100], f"selection re-arranged: {dump(t)[:80]}")
             else:
                 stores = [e for e in p.events if e.kind == "store"]
                 good = len(stores) == 1 and dump(stores[0].target) == f"self._t[{ck}[0]]" and dump(stores[0].value) == f"{fi.params[2]}._t"
